@@ -189,7 +189,7 @@ fn leaves(f: &From, db: &[Table], out: &mut Vec<(usize, usize)>, width: &mut usi
         }
         // a derived table written in the case itself (engine `sql` generates them; this engine's generator does not):
         // one opaque leaf
-        From::Derived(_, _, items) => {
+        From::Derived(_, _, items, _) => {
             out.push((super::sql::DERIVED_LEAF, *width));
             *width += items.len();
         }
@@ -366,7 +366,7 @@ fn sql_from_plain(f: &From, db: &[Table], next: &mut usize, col: &dyn Fn(usize) 
             *next += 1;
             s
         }
-        From::Derived(inner, w, items) => {
+        From::Derived(inner, w, items, _) => {
             let s = super::sql::sql_derived(inner, w, items, *next, db);
             *next += 1;
             s
@@ -526,7 +526,7 @@ fn sql_from_derived(
                         *next += 1;
                         s
                     }
-                    From::Derived(inner, w, items) => {
+                    From::Derived(inner, w, items, _) => {
                         let s = super::sql::sql_derived(inner, w, items, *next, db);
                         *next += 1;
                         s
@@ -649,6 +649,8 @@ pub fn dml_sql(s: &Stmt) -> String {
     let col = |i: usize| format!("c{}", i);
     match s {
         Stmt::Select(_) => String::new(),
+        // (engine `sql` prints these; the plan generators build no column lists)
+        Stmt::InsertX(..) => super::sql::sql_stmt(s, &[]),
         Stmt::Insert(t, rows) => {
             let rs: Vec<String> = rows
                 .iter()
@@ -1032,7 +1034,7 @@ pub fn run_case(line: &str, run_queries: bool) -> Outcome {
             outs.push("-".into());
             continue;
         }
-        let collects = batch.is_some() && early.sess.is_none() && matches!(op, Op::Stmt(Stmt::Insert(..) | Stmt::Update(..) | Stmt::Delete(..)));
+        let collects = batch.is_some() && early.sess.is_none() && matches!(op, Op::Stmt(Stmt::Insert(..) | Stmt::InsertX(..) | Stmt::Update(..) | Stmt::Delete(..)));
         if !collects {
             if let Some(stmts) = batch.take() {
                 flush_batch(&stmts, &mut early, late.as_mut(), &mut outs, &mut failed);
@@ -1048,7 +1050,7 @@ pub fn run_case(line: &str, run_queries: bool) -> Outcome {
                 outs.push("ok".into());
             }
             Op::EndBatch => outs.push("ok".into()),
-            Op::Stmt(s @ (Stmt::Insert(..) | Stmt::Update(..) | Stmt::Delete(..))) if collects => {
+            Op::Stmt(s @ (Stmt::Insert(..) | Stmt::InsertX(..) | Stmt::Update(..) | Stmt::Delete(..))) if collects => {
                 if let Some(b) = batch.as_mut() {
                     b.push((outs.len(), dml_sql(s)));
                 }
@@ -1102,7 +1104,7 @@ pub fn run_case(line: &str, run_queries: bool) -> Outcome {
                 }
                 outs.push(o);
             }
-            Op::Stmt(s @ (Stmt::Insert(..) | Stmt::Update(..) | Stmt::Delete(..))) => {
+            Op::Stmt(s @ (Stmt::Insert(..) | Stmt::InsertX(..) | Stmt::Update(..) | Stmt::Delete(..))) => {
                 let sql = dml_sql(s);
                 let a = canon_result(early.run(&sql), None);
                 let mut o = a.clone();
@@ -1188,6 +1190,19 @@ pub fn run_case(line: &str, run_queries: bool) -> Outcome {
                     }
                 }
                 seen.insert(sql_a.clone(), da.clone());
+                // physical operators of the chosen plans: op.<Name> = forms whose plan holds the operator
+                for (_, d) in &digs {
+                    let mut names: BTreeSet<String> = BTreeSet::new();
+                    for part in d.split(',') {
+                        let name: String = part.trim_start_matches(|c: char| c.is_ascii_digit()).chars().take_while(|c| c.is_ascii_alphanumeric()).collect();
+                        if !name.is_empty() {
+                            names.insert(name);
+                        }
+                    }
+                    for n in names {
+                        bump(&format!("op.{}", n), 1);
+                    }
+                }
                 for (_, d) in &digs {
                     if d.contains("IndexScan") {
                         bump("uses.index-scan", 1);
@@ -1690,6 +1705,180 @@ fn gen_ord_case(rng: &mut Rng) -> Case {
     let r = if required.is_empty() { "-".to_string() } else { required.iter().map(show_r).collect::<Vec<_>>().join(",") };
     tags.push("nt".into());
     Case { line: format!("ord {} {}", d, r), tags }
+}
+
+// ------------------------------------------------------------------------------------------------ join operator cases
+
+/// `jop <DB> | sel all j <kind> t0 t1 (on E | -) - g0 a0 star o0 lim- off-`: the join of the two tables of the database
+/// is handed to the implementation rules through the facade (`verif::plan::run_join_operators`) and **every** physical
+/// join operator they offer is run directly on the two inputs — the cost model has no say.  Answer: one
+/// `<Operator>=<result>` per offered operator (NestedLoopJoin always; HashJoin and MergeJoin for a pure conjunction of
+/// `column = column` over both sides), result = `Rset:` rows in canonical order or `E<class>`.
+fn run_jop_case(line: &str) -> String {
+    let Some(rest) = line.strip_prefix("jop ") else { return "bad-op".into() };
+    let Some((dbw, stmt)) = rest.split_once(" | ") else { return "bad-op".into() };
+    let Some((db, stmts)) = parse_case(&format!("sql {} ; {}", dbw.trim(), stmt)) else { return "bad-op".into() };
+    let [Stmt::Select(q)] = stmts.as_slice() else { return "bad-op".into() };
+    let From::Join(kind, l, r, on) = &q.from else { return "bad-op".into() };
+    if db.len() != 2 || !matches!(**l, From::Table(0)) || !matches!(**r, From::Table(1)) {
+        return "bad-op".into();
+    }
+    let plain = q.where_.is_none() && q.aggs.is_empty() && q.group_by.is_empty() && q.items.is_none() && q.order_by.is_empty()
+        && q.limit.is_none() && q.offset.is_none() && !q.distinct && q.having.is_none();
+    if !plain {
+        return "bad-op".into();
+    }
+    let vty = |t: Ty| match t {
+        Ty::Int => Some(vp::VTy::Int),
+        Ty::BigInt => Some(vp::VTy::BigInt),
+        Ty::Bool => Some(vp::VTy::Bool),
+        Ty::Text => Some(vp::VTy::Text),
+        _ => None,
+    };
+    let mut vts: Vec<vp::VTable> = Vec::new();
+    for t in &db {
+        let Some(cols) = t.tys.iter().map(|t| vty(*t).map(|v| (v, false))).collect::<Option<Vec<_>>>() else { return "bad-op".into() };
+        vts.push(vp::VTable { cols, indexes: vec![] });
+    }
+    let vlit = |v: &Val| match v {
+        Val::Null | Val::F64(_) => vp::VLit::Null,
+        Val::Int(i) => vp::VLit::Int(*i as i64),
+        Val::Bool(b) => vp::VLit::Bool(*b),
+        Val::Text(t) => vp::VLit::Text(t.clone()),
+    };
+    let rows = |t: &Table| -> Vec<Vec<vp::VLit>> { t.rows.iter().map(|r| r.iter().map(vlit).collect()).collect() };
+    let tables: [vp::VTable; 2] = [vts[0].clone(), vts[1].clone()];
+    let on_v = on.as_ref().map(to_vexpr);
+    let unv = |v: &vp::VLit| match v {
+        vp::VLit::Null => Val::Null,
+        vp::VLit::Int(i) => Val::Int(*i as i128),
+        vp::VLit::Bool(b) => Val::Bool(*b),
+        vp::VLit::Text(t) => Val::Text(t.clone()),
+    };
+    match vp::run_join_operators(&tables, kind, on_v.as_ref(), &rows(&db[0]), &rows(&db[1])) {
+        Err(e) => format!("jop-error ## {}", e),
+        Ok(ops) => ops
+            .iter()
+            .map(|(name, res)| match res {
+                Ok(rs) => {
+                    let rows: Vec<Vec<Val>> = rs.iter().map(|r| r.iter().map(unv).collect()).collect();
+                    format!("{}=Rset:{}", name, show_rows(&rows, true))
+                }
+                Err(e) => format!("{}=E{}", name, err_class(e)),
+            })
+            .collect::<Vec<_>>()
+            .join(" ; "),
+    }
+}
+
+/// two small inputs with NULL keys and duplicates on both sides, every join kind, mostly pure equi conditions
+fn gen_jop_case(rng: &mut Rng) -> Case {
+    let mut tags: Vec<String> = vec!["jop".into(), "nt".into()];
+    let text_keys = rng.chance(1, 6);
+    let mixed = !text_keys && rng.chance(1, 6);
+    let key_ty = |rng: &mut Rng, side: usize| -> Ty {
+        if text_keys {
+            Ty::Text
+        } else if mixed {
+            if side == 0 { Ty::Int } else { Ty::BigInt }
+        } else if rng.chance(1, 8) {
+            Ty::BigInt
+        } else {
+            Ty::Int
+        }
+    };
+    if text_keys {
+        tags.push("jop.text-keys".into());
+    }
+    if mixed {
+        tags.push("jop.int-bigint-keys".into());
+    }
+    let dom = rng.range(2, 4) as u64;
+    let null_rate = *rng.pick(&[0u64, 3, 3, 4, 6]);
+    let mut db: Vec<Table> = Vec::new();
+    for side in 0..2 {
+        let w = rng.range(1, 3) as usize;
+        // column 0 and (if there) column 1 are key columns; a further column is an INT payload
+        let mut tys: Vec<Ty> = Vec::new();
+        for c in 0..w {
+            tys.push(if c < 2 { key_ty(rng, side) } else { Ty::Int });
+        }
+        let n = *rng.pick(&[0usize, 1, 2, 3, 4, 5, 6, 8]);
+        let rows: Vec<Vec<Val>> = (0..n)
+            .map(|_| {
+                tys.iter()
+                    .map(|t| {
+                        if null_rate > 0 && rng.chance(1, null_rate) {
+                            Val::Null
+                        } else if *t == Ty::Text {
+                            Val::Text(TEXTS[rng.below(dom) as usize].as_bytes().to_vec())
+                        } else {
+                            Val::Int(rng.below(dom) as i128)
+                        }
+                    })
+                    .collect()
+            })
+            .collect();
+        db.push(Table { tys, rows });
+    }
+    let (lw, rw) = (db[0].tys.len(), db[1].tys.len());
+    let nulls = |t: &Table| t.rows.iter().any(|r| r[0] == Val::Null);
+    if nulls(&db[0]) && nulls(&db[1]) {
+        tags.push("jop.null-keys-both-sides".into());
+    }
+    if db[0].rows.is_empty() || db[1].rows.is_empty() {
+        tags.push("jop.empty-input".into());
+    }
+    let kind = *rng.pick(&["inner", "left", "right", "full"]);
+    tags.push(format!("jop.{}", kind));
+    let eq = |rng: &mut Rng, l: usize, r: usize| if rng.chance(1, 3) { cmp("eq", E::Col(lw + r), E::Col(l)) } else { cmp("eq", E::Col(l), E::Col(lw + r)) };
+    let mut cs: Vec<E> = Vec::new();
+    let shape = rng.below(10);
+    match shape {
+        0..=6 => {
+            tags.push("jop.equi".into());
+            cs.push(eq(rng, 0, 0));
+            if lw > 1 && rw > 1 && rng.chance(1, 2) {
+                tags.push("jop.equi.2keys".into());
+                cs.push(eq(rng, 1, 1));
+            }
+            if rng.chance(1, 2) {
+                cs.reverse();
+            }
+        }
+        7 => {
+            tags.push("jop.equi-and-more".into());
+            cs.push(eq(rng, 0, 0));
+            let extra = if text_keys {
+                E::IsNull(true, b(E::Col(rng.below((lw + rw) as u64) as usize)))
+            } else {
+                match rng.below(3) {
+                    0 => cmp(*rng.pick(&["lt", "ge", "ne"]), E::Col(rng.below(lw as u64) as usize), lit_i(rng.below(dom) as i128)),
+                    1 => cmp(*rng.pick(&["le", "gt"]), E::Col(lw - 1), E::Col(lw + rw - 1)),
+                    _ => E::IsNull(rng.chance(1, 2), b(E::Col(lw + rng.below(rw as u64) as usize))),
+                }
+            };
+            cs.push(extra);
+        }
+        8 => {
+            tags.push("jop.theta".into());
+            cs.push(cmp(*rng.pick(&["lt", "le", "ne", "ge"]), E::Col(0), E::Col(lw)));
+        }
+        _ => tags.push("jop.no-condition".into()),
+    }
+    let q = Select {
+        distinct: false,
+        from: From::Join(kind, b2(From::Table(0)), b2(From::Table(1)), conj(cs)),
+        where_: None,
+        group_by: vec![],
+        aggs: vec![],
+        items: None,
+        order_by: vec![],
+        limit: None,
+        offset: None,
+        having: None,
+    };
+    Case { line: format!("jop {} | {}", show_db(&db), show_stmt(&Stmt::Select(q))), tags }
 }
 
 // generator of rule-level cases
@@ -3232,7 +3421,115 @@ fn gen_chain_case(rng: &mut Rng) -> (String, BTreeSet<String>) {
     (show_case(&db, &[], &ops), tags)
 }
 
+/// Family "equi-joins where the operators' costs cross" (tag fam.window).  Two tables without indexes whose sizes lie
+/// where, once ANALYZE has run, nested loop, hash join and merge join cost about the same — 11-14 narrow rows each,
+/// 5 × 21-37, 8 × 13-30, or 12-30 rows with a TEXT column of 290-400 bytes — so that a small change of the cost model
+/// changes the operator.  NULL keys and duplicates on both sides; RIGHT / FULL mostly; the query (ids and keys) runs
+/// before ANALYZE (default statistics: merge join), after it, and after a further INSERT; forms a, c, f, g.
+fn gen_window_case(rng: &mut Rng) -> (String, BTreeSet<String>) {
+    let mut tags: BTreeSet<String> = BTreeSet::new();
+    let mut tag = |t: &str| {
+        tags.insert(t.to_string());
+    };
+    tag("fam.window");
+    tag("shape.few-relations");
+    let wide = rng.chance(1, 5);
+    let (n0, n1) = if wide {
+        tag("window.wide-rows");
+        (rng.range(12, 30) as usize, rng.range(12, 30) as usize)
+    } else {
+        match rng.below(10) {
+            0..=5 => {
+                tag("window.11-14");
+                (rng.range(11, 14) as usize, rng.range(11, 14) as usize)
+            }
+            6 | 7 => {
+                tag("window.5x21-37");
+                let (a, b) = (5usize, rng.range(21, 37) as usize);
+                if rng.chance(1, 2) { (a, b) } else { (b, a) }
+            }
+            _ => {
+                tag("window.8x13-30");
+                let (a, b) = (8usize, rng.range(13, 30) as usize);
+                if rng.chance(1, 2) { (a, b) } else { (b, a) }
+            }
+        }
+    };
+    let dom = rng.range(3, 7) as u64;
+    let two_keys = rng.chance(1, 4);
+    let key_ty = if rng.chance(1, 8) { Ty::BigInt } else { Ty::Int };
+    let mut db: Vec<Table> = Vec::new();
+    for n in [n0, n1] {
+        // id, key [, second key] [, wide text]
+        let mut tys = vec![Ty::Int, key_ty];
+        if two_keys {
+            tys.push(Ty::Int);
+        }
+        if wide {
+            tys.push(Ty::Text);
+        }
+        let rows: Vec<Vec<Val>> = (0..n)
+            .map(|i| {
+                tys.iter()
+                    .enumerate()
+                    .map(|(c, t)| {
+                        if c == 0 {
+                            Val::Int(i as i128 + 1)
+                        } else if *t == Ty::Text {
+                            let len = rng.range(290, 400) as usize;
+                            Val::Text((0..len).map(|k| b'a' + ((i + k) % 26) as u8).collect())
+                        } else if rng.chance(1, 4) {
+                            Val::Null
+                        } else {
+                            Val::Int(rng.below(dom) as i128)
+                        }
+                    })
+                    .collect()
+            })
+            .collect();
+        db.push(Table { tys, rows });
+    }
+    let w0 = db[0].tys.len();
+    let eq = |rng: &mut Rng, l: usize, r: usize| if rng.chance(1, 4) { cmp("eq", E::Col(r), E::Col(l)) } else { cmp("eq", E::Col(l), E::Col(r)) };
+    let mut cs = vec![eq(rng, 1, w0 + 1)];
+    if two_keys {
+        tag("join.equi.2keys");
+        cs.push(eq(rng, 2, w0 + 2));
+    }
+    let kind = *rng.pick(&["right", "right", "right", "right", "full", "full", "full", "full", "left", "inner"]);
+    tag(&format!("window.{}", kind));
+    tag(&format!("join.{}", kind));
+    tag("join.equi");
+    tag("q.join2");
+    let from = From::Join(kind, b2(From::Table(0)), b2(From::Table(1)), conj(cs));
+    let mut q = Select { distinct: false, from, where_: None, group_by: vec![], aggs: vec![], items: None, order_by: vec![], limit: None, offset: None, having: None };
+    if rng.chance(1, 8) {
+        tag("q.agg");
+        q.aggs.push(super::sql::Agg { f: "cnt*", arg: None });
+    } else {
+        q.items = Some(vec![E::Col(0), E::Col(1), E::Col(w0), E::Col(w0 + 1)]);
+    }
+    let mut ops: Vec<Op> = Vec::new();
+    ops.push(Op::Stmt(Stmt::Select(q.clone())));
+    tag("q.around-analyze");
+    ops.push(Op::Analyze(1000, 100000));
+    ops.push(Op::Stmt(Stmt::Select(q.clone())));
+    if !wide && rng.chance(1, 3) {
+        tag("q.around-dml");
+        let t = rng.below(2) as usize;
+        let n = if t == 0 { n0 } else { n1 };
+        let row: Vec<E> = db[t].tys.iter().enumerate().map(|(c, _)| if c == 0 { lit_i(n as i128 + 1) } else if rng.chance(1, 3) { E::Lit(Val::Null) } else { lit_i(rng.below(dom) as i128) }).collect();
+        ops.push(Op::Stmt(Stmt::Insert(t, vec![row])));
+        ops.push(Op::Stmt(Stmt::Select(q)));
+    }
+    drop(tag);
+    (show_case(&db, &[], &ops), tags)
+}
+
 fn gen_case(rng: &mut Rng) -> (String, BTreeSet<String>) {
+    if rng.chance(1, 12) {
+        return gen_window_case(rng);
+    }
     if rng.chance(1, 10) {
         return gen_chain_case(rng);
     }
@@ -3406,6 +3703,17 @@ fn gen_all(rng: &mut Rng, tier: Tier) -> Vec<Case> {
     };
     let mut rrng = rng.fork("rules");
     let rule_cases: Vec<Case> = (0..nrules).map(|_| gen_rule_case(&mut rrng)).collect();
+    // operators no chosen plan of this run holds (the cost model decides which operators the pair runs ever see;
+    // the jop cases run the join operators whatever it says)
+    let never: Vec<String> = if facts.is_empty() {
+        vec![]
+    } else {
+        ["SeqScan", "IndexScan", "Filter", "Project", "NLJoin", "HashJoin", "MergeJoin", "HashAggregate", "Sort", "Limit", "Distinct", "Materialize"]
+            .iter()
+            .filter(|n| !facts.iter().any(|f| f.contains_key(&format!("op.{}", n))))
+            .map(|n| format!("m.op-never-chosen.{}", n))
+            .collect()
+    };
     let mut all: Vec<Case> = lines
         .into_iter()
         .enumerate()
@@ -3419,6 +3727,9 @@ fn gen_all(rng: &mut Rng, tier: Tier) -> Vec<Case> {
                     }
                 }
             }
+            if i == 0 {
+                tags.extend(never.iter().cloned());
+            }
             tags.push("nt".into());
             Case { line, tags }
         })
@@ -3430,6 +3741,12 @@ fn gen_all(rng: &mut Rng, tier: Tier) -> Vec<Case> {
     };
     let mut orng = rng.fork("orderings");
     all.extend((0..nord).map(|_| gen_ord_case(&mut orng)));
+    let njop = match tier {
+        Tier::Quick => 1200,
+        Tier::Thorough => 12000,
+    };
+    let mut jrng = rng.fork("join-operators");
+    all.extend((0..njop).map(|_| gen_jop_case(&mut jrng)));
     all
 }
 
@@ -3452,6 +3769,9 @@ impl Engine for PlanEngine {
         }
         if line.starts_with("ord ") {
             return run_ord_case(line);
+        }
+        if line.starts_with("jop ") {
+            return run_jop_case(line);
         }
         if let Some(rest) = line.strip_prefix("measure ") {
             let o = run_case(rest, false);
